@@ -59,6 +59,7 @@ def run(ck, progs):
         _capacity(ck, P, cfg)
         rules_array.check(ck, P, "C11.7")
         rules_array.check_moves(ck, P, "C11.7")
+        rules_array.check_cached_items(ck, P, "C11.7")
         rules_msg.check_typestate(ck, P, "C11.1", "C11.1")
         rules_msg.check_foreign_entries_untouched(ck, P, "C11.1")
         rules_num.check_shift_widths(ck, P, "C11.2")
